@@ -547,6 +547,7 @@ def lib_bounded(repo, infos, names, root, tier, seed):
     jobs = [{'expr': f'_c10({seed}, {n}, {entries!r})'}, {'expr': f'_c10_special({seed}, {6 * n})'}]
     total = 0
     for real in rp.run_real(jobs, prelude=LIB_PRELUDE, root=root, timeout=1500):
+        rp.check_driver(real)
         if not real['ok']:
             return {'expr': 'library entry points on random arguments', 'real': real, 'failed_clause': 'bounded driver raised: ' + str(real.get('exc'))}, 0
         d = rp.repr_to_data(real['repr'])
